@@ -7,6 +7,7 @@ import NibabelModel.Lemmas.C08_TckHdr
 import NibabelModel.Lemmas.C08_TckChunk
 import NibabelModel.Lemmas.C08_PerRead
 import NibabelModel.Lemmas.C08_Xml
+import NibabelModel.Lemmas.C08_Any
 import NibabelModel.Generated.C08
 /-! Props/C08 — the property theorems for C08 (a truncated file is never read back as different data). -/
 namespace Nb.C08
@@ -789,5 +790,170 @@ theorem tck_prefix_shipped_buffer (t : Tck) (hlines : ∀ l ∈ t.lines, GoodLin
 
 example : tckReadB Gen.tckBufferBytes (Src.plain (tckWrite tckEx)) = .ok tckEx.streams := by
   rw [tckReadB_eq _ (by decide) (by decide)]; decide +kernel
+
+/-! ### phase 4: tractogram readers against ANY chunking / per-read behaviour; `buffer_size`; header refusal -/
+
+/-- **tck_any_chunking.**  `TckFile._read` against ANY chunking of the byte stream.  The opened file holds the
+    first `m` bytes of a written TCK file (`m` ≥ length: the complete file) and EVERY `readinto` of the data loop
+    may independently deliver fewer bytes than are available — a raw / unbuffered stream, a pipe, a decompressor
+    handing out what it has — or raise (`ShortReadsOf`); the file object may also raise during the header line
+    scan (`hdrErr`).  `_read` takes `n_read != buffer_size` for end of file, so it may stop early — but then the
+    closing `inf` triple is missing: for every buffer size that is a positive multiple of 12 the reader raises or
+    returns EXACTLY the (non-empty) streamlines written, the latter only if the file is complete.  (Streamline
+    points: 12-byte triples, none all-`inf`, none all-NaN.)  Proof: the chunks consumed are the first `L` bytes
+    for some `L` (`chunkLoopG_short`), so the result is the whole-buffer result on a prefix, which
+    `tck_data_prefix` refuses unless it is the whole body (`tck_complete_roundtrip`). -/
+theorem tck_any_chunking (B : Nat) (hB0 : 0 < B) (hB : B % 12 = 0) (t : Tck) (hlines : ∀ l ∈ t.lines, GoodLine l)
+    (hl : StreamsWF t.streams) (hn : NoNaN t.streams) (m : Nat) (rd : Nat → Nat → Except Err Bytes)
+    (h : ShortReadsOf ((tckWrite t).take m) rd) (hdrErr : Option Err) :
+    let r := tckReadBG B ((tckWrite t).take m) rd hdrErr
+    Safe r (t.streams.filter (· ≠ [])) ∧ (r = .ok (t.streams.filter (· ≠ [])) → (tckWrite t).length ≤ m) := by
+  intro r
+  rcases tckReadBG_any B hB0 hB t hlines hl m rd h hdrErr with ⟨e, he⟩ | ⟨hm, hr⟩
+  · simp only [r, he]; exact ⟨Or.inr ⟨e, rfl⟩, fun hc => by cases hc⟩
+  · have hc : tckData (Src.plain (tckWrite t)) (tckHeader t).length = .ok (t.streams.filter (· ≠ [])) := by
+      rw [tckWrite]; exact tckData_complete t.streams hl hn (tckHeader t)
+    simp only [r, hr, hc]
+    exact ⟨Or.inl rfl, fun _ => hm⟩
+
+/-- a short-read schedule is a `ShortReadsOf` file object; the example file in 24-byte chunks: served in full it
+    reads back, with the SECOND chunk delivered short (12 of 24 bytes, no EOF) `_read` stops early and raises -/
+example : (∀ sched, ShortReadsOf (tckWrite tckEx) (schedRd (tckWrite tckEx) (tckHeader tckEx).length 24 sched)) ∧
+    NoNaN tckEx.streams ∧
+    tckReadBG 24 (tckWrite tckEx) (schedRd (tckWrite tckEx) (tckHeader tckEx).length 24 []) none = .ok tckEx.streams ∧
+    tckReadBG 24 (tckWrite tckEx) (schedRd (tckWrite tckEx) (tckHeader tckEx).length 24 [some 24, some 12]) none
+      = .error .trunc := by
+  refine ⟨fun sched => schedRd_short _ _ _ sched, ?_, by decide +kernel, by decide +kernel⟩
+  intro s hs t ht
+  simp only [tckEx, List.mem_cons, List.not_mem_nil, or_false] at hs
+  rcases hs with h | h <;> subst h <;> simp only [List.mem_cons, List.not_mem_nil, or_false] at ht
+  · rcases ht with h | h <;> subst h <;> decide
+  · subst ht; decide
+
+/-- **tck_chunkedG_inst.**  Refinement link: with the request function of a `Src` the abstracted reader IS
+    `tckReadB` (which `tck_chunked_eq` proves equal to the whole-buffer model). -/
+theorem tck_chunkedG_inst (B : Nat) (s : Src) : tckReadBG B s.bytes s.read none = tckReadB B s := by
+  simp only [tckReadBG, tckReadB, tckDataChunked, tckChunkLoopG_inst]
+  rfl
+
+/-- **tck_complete_roundtrip.**  The positive half: the data part of a COMPLETE written file (after any header
+    bytes `pre`) reads back as exactly the non-empty streamlines written (`_read` skips empty ones). -/
+theorem tck_complete_roundtrip (l : List (List Bytes)) (hl : StreamsWF l) (hn : NoNaN l) (pre : Bytes) :
+    tckData (Src.plain (pre ++ tckBody l)) pre.length = .ok (l.filter (· ≠ [])) :=
+  tckData_complete l hl hn pre
+
+example : tckData (Src.plain (tckHeader tckEx ++ tckBody tckEx.streams)) (tckHeader tckEx).length
+    = .ok tckEx.streams := by decide +kernel
+
+/-- **trk_prefix_per_read.**  `trk_prefix` with the end-of-stream behaviour decided PER READ: every request of
+    `TrkFile._read_header` / `_read` (header block, each record's point count, point rows, properties)
+    independently delivers exactly the available part of the first `m` bytes or raises (`ReadsOf`): every strict
+    prefix of a written TRK file (header count ≥ 1) raises.  (`trk_per_read_inst`: with the request function of
+    a `Src` the abstracted reader is `trkReadGen`.) -/
+theorem trk_prefix_per_read (t : Trk) (wf : t.WF) (h1 : 1 ≤ t.recs.length) (m : Nat)
+    (hm : m < (trkWrite t).length) (rdf : Nat → Nat → Except Err Bytes)
+    (h : ReadsOf ((trkWrite t).take m) rdf) :
+    ∃ e, trkReadGenG true ((trkWrite t).take m) rdf = .error e := by
+  rcases trkReadGenG_mono h true with h2 | he
+  · rw [h2, trkReadGenG_lax]; exact trk_prefix t wf h1 m false hm
+  · exact he
+
+/-- **trk_per_read_inst.**  Refinement link for the TRK reader over a request function. -/
+theorem trk_per_read_inst (check : Bool) (s : Src) : trkReadGenG check s.bytes s.read = trkReadGen check s :=
+  trkReadGenG_inst check s
+
+example : ReadsOf ((trkWrite trkEx).take 1016) (laxRd ((trkWrite trkEx).take 1016)) ∧
+    trkReadGenG true (trkWrite trkEx) (laxRd (trkWrite trkEx)) = .ok (trkData trkEx) := by
+  refine ⟨laxRd_readsOf _, ?_⟩
+  rw [trkReadGenG_lax]; decide +kernel
+
+/-- **tck_buffer_size_ok.**  The `buffer_size` arithmetic of `TckFile._read` (`buffer_size += coordinate_size -
+    (buffer_size % coordinate_size)`), for EVERY requested size `n` and coordinate size `c > 0`: the result is a
+    positive multiple of `c` in `(n, n + c]` — so the hypothesis "positive multiple of 12" of `tck_chunked_eq` /
+    `tck_any_chunking` holds whatever `buffer_size` a caller passes — and the statement as TRANSLATED FROM THE
+    AST of the working tree (`Gen.tckBufAdjust`, Python ints as `Int`) computes exactly this. -/
+theorem tck_buffer_size_ok (n c : Nat) (hc : 0 < c) :
+    tckBufferSize n c % c = 0 ∧ n < tckBufferSize n c ∧ tckBufferSize n c ≤ n + c ∧
+    Gen.tckBufAdjust n c = (tckBufferSize n c : Int) := by
+  have hr := Nat.mod_lt n hc
+  have hd := Nat.div_add_mod n c
+  have e : tckBufferSize n c = c * (n / c + 1) := by
+    unfold tckBufferSize
+    rw [Nat.mul_add]
+    generalize c * (n / c) = q at hd ⊢
+    omega
+  refine ⟨by rw [e]; exact Nat.mul_mod_right _ _, by unfold tckBufferSize; omega,
+    by unfold tckBufferSize; omega, ?_⟩
+  unfold Gen.tckBufAdjust tckBufferSize
+  rw [← Int.natCast_emod]
+  omega
+
+example : tckBufferSize 4194304 12 = 4194312 ∧ tckBufferSize 24 12 = 36 := by decide
+
+/-- **tck_shipped_buffer_derived.**  The chunk size is now DERIVED, not only measured: `3 * itemsize = 12` (AST),
+    and the number of bytes the running `_read` really requests per `readinto` (`Gen.tckBufferBytes`, recording
+    file object) equals the AST-translated arithmetic applied to `int(default * MEGABYTE)`. -/
+theorem tck_shipped_buffer_derived :
+    Gen.tckCoordSize Gen.tckItemSize = 12 ∧
+    Gen.tckBufferBytes = tckBufferSize Gen.tckBufRequested 12 ∧
+    (Gen.tckBufferBytes : Int) = Gen.tckBufAdjust Gen.tckBufRequested (Gen.tckCoordSize Gen.tckItemSize) := by
+  decide
+
+/-- **header_refusal_total.**  Which loader refuses which short header — total over the regenerated class table
+    (`Gen.volFmts`: header size and sniff length of every writable volume class, from the working tree), for
+    `nib.load` (sniffing) and `Class.from_filename` (`noSniff`), single files and pair headers, plain files and
+    decompressors alike: a header file holding fewer bytes than the class's binary block is ALWAYS refused by both
+    entry points; and for the extension-less classes (Analyze / SPM99 / SPM2 / MGH) a plain file holding at least
+    the binary block ALWAYS passes the header phase of both (so the cut point `hdrSize` is exact). -/
+theorem header_refusal_total :
+    ∀ f ∈ Gen.volFmts, ∀ (single : Bool) (s : Src),
+      (s.bytes.length < f.hdrSize →
+        (∃ e, readHeader f single s = .error e) ∧ (∃ e, readHeader f.noSniff single s = .error e)) ∧
+      (f.exts = false → s.strict = false → f.hdrSize ≤ s.bytes.length →
+        (∃ r, readHeader f single s = .ok r) ∧ (∃ r, readHeader f.noSniff single s = .ok r)) := by
+  intro f hf single s
+  have hsn : f.sniffLen ≤ f.hdrSize := (gen_constants_ok.2.2.2.2.2.2.2.2.2.2.2.2.2.2.2.2.2 f hf).2.1
+  refine ⟨fun h => ⟨short_header_refused f single s h, short_header_refused f.noSniff single s h⟩, ?_⟩
+  intro hx hst hlen
+  obtain ⟨b, st⟩ := s
+  simp only at hst hlen
+  subst hst
+  have h1 : hdrRefuses f b.length = false := by
+    simp only [hdrRefuses, Bool.or_eq_false_iff, decide_eq_false_iff_not, Nat.not_lt]; omega
+  have h2 : hdrRefuses f.noSniff b.length = false := by
+    simp only [hdrRefuses, VolFmt.noSniff, Bool.or_eq_false_iff]
+    exact ⟨decide_eq_false (by omega), decide_eq_false (by omega)⟩
+  have d1 := plain_header_decision f hx single b
+  have d2 := plain_header_decision f.noSniff hx single b
+  constructor
+  · cases hr : readHeader f single (Src.plain b) with
+    | ok r => exact ⟨r, hr⟩
+    | error e => have := d1.1 ⟨e, hr⟩; rw [h1] at this; cases this
+  · cases hr : readHeader f.noSniff single (Src.plain b) with
+    | ok r => exact ⟨r, hr⟩
+    | error e => have := d2.1 ⟨e, hr⟩; rw [h2] at this; cases this
+
+example : (⟨348, 348, false, none, 0⟩ : VolFmt) ∈ Gen.volFmts ∧
+    (match readHeader ⟨348, 348, false, none, 0⟩ false (Src.plain (List.replicate 348 1)) with
+      | .ok _ => true | .error _ => false) = true ∧
+    readHeader ⟨348, 348, false, none, 0⟩ false (Src.plain (List.replicate 347 1)) = .error .bad ∧
+    readHeader (VolFmt.noSniff ⟨348, 348, false, none, 0⟩) false (Src.plain (List.replicate 347 1)) = .error .trunc := by
+  refine ⟨by decide, by decide +kernel, by decide +kernel, by decide +kernel⟩
+
+/-- **load_vs_class_loader.**  The two entry points on ANY source: `nib.load` (sniff) gives what the class loader
+    (no sniff) gives, or refuses ('Cannot work out file type') — it never accepts more. -/
+theorem load_vs_class_loader (fmt : VolFmt) (single : Bool) (s : Src) :
+    readHeader fmt single s = readHeader fmt.noSniff single s ∨ readHeader fmt single s = .error .bad :=
+  load_refines_class_loader fmt single s
+
+/-- **header_decision_plain.**  For an extension-less class and a plain header file the header phase is refused
+    IFF the file is shorter than the binary block or than the sniff length (`hdrRefuses`) — nothing else in the
+    header phase can fail. -/
+theorem header_decision_plain (fmt : VolFmt) (hx : fmt.exts = false) (single : Bool) (b : Bytes) :
+    (∃ e, readHeader fmt single (Src.plain b) = .error e) ↔ hdrRefuses fmt b.length = true :=
+  plain_header_decision fmt hx single b
+
+example : hdrRefuses ⟨348, 348, false, none, 0⟩ 347 = true ∧ hdrRefuses ⟨348, 348, false, none, 0⟩ 348 = false ∧
+    hdrRefuses (VolFmt.noSniff ⟨90, 0, false, some 284, 20⟩) 90 = false := by decide
 
 end Nb.C08
